@@ -127,12 +127,19 @@ class Renderer(object):
         return letter + self._spell(fmt(v, self._nd(), kz))
 
     def _e_word(self, de):
+        """E word for an extruder move by `de` mm, or None if rounding (decimals, unit conversion) would turn an
+        extrusion into a non-extrusion or micro-retraction: the programs of C04/C05 consist of extrusions and of
+        matched retract/recover cycles, an accidental retraction by 1e-7 mm is neither."""
         U = self.U
         if U.abs_e:
             v = (U.E + de) / U.unit
         else:
             v = de / U.unit
-        return "E" + self._spell(fmt(v, self._nd() + 1, self.cfg.get("keep_zeros", False)))
+        num = fmt(v, self._nd() + 1, self.cfg.get("keep_zeros", False))
+        got = float(num) * U.unit - (U.E if U.abs_e else 0.0)
+        if (de > 0 and got <= 1e-9) or (de < 0 and got >= -1e-9):
+            return None
+        return "E" + self._spell(num)
 
     def render(self, op):
         """-> list of file lines for a motion-level op (may be empty if the op is not legal right now)."""
@@ -151,10 +158,12 @@ class Renderer(object):
             if len(parts) == 1 and op.get("de") is None and op.get("f") is None:
                 return []
             if op.get("de") is not None and not self.file_retracted:
-                parts.append(self._e_word(op["de"]))
-                if op.get("wipe"):
-                    self.file_retracted = True
-                    self.file_retract_len = -op["de"]
+                ew = self._e_word(op["de"])
+                if ew is not None:
+                    parts.append(ew)
+                    if op.get("wipe"):
+                        self.file_retracted = True
+                        self.file_retract_len = -op["de"]
             if op.get("f") is not None:
                 parts.append("F" + fmt(op["f"] / U.unit, 3))
             return [self._join(parts)]
@@ -182,15 +191,17 @@ class Renderer(object):
             if not (op.get("omit") and cj == 0.0):
                 parts.append("J" + fmt(cj / U.unit, self._nd()))
             if op.get("de") is not None and not self.file_retracted:
-                parts.append(self._e_word(op["de"]))
+                ew = self._e_word(op["de"])
+                if ew is not None:
+                    parts.append(ew)
             if op.get("f") is not None:
                 parts.append("F" + fmt(op["f"] / U.unit, 3))
-            return [" ".join(parts)]
+            return [self._join(parts)]
         if k == "retract":
             if self.file_retracted and op.get("extra") and self.file_retract_len is not None and not op.get("fw"):
                 # a further retraction without an intervening recovery (Slic3r wipe + retract_layer_change)
                 self.file_retract_len += op["len"]
-                line = "G1 " + self._e_word(-op["len"])
+                line = "G1 " + (self._e_word(-op["len"]) or "")
                 if op.get("f") is not None:
                     line += " F" + fmt(op["f"] / U.unit, 3)
                 return [line]
@@ -201,7 +212,7 @@ class Renderer(object):
                 self.file_retract_len = None
                 return [self._join(["G10"] + ([op["params"]] if op.get("params") else []))]
             self.file_retract_len = op["len"]
-            line = "G1 " + self._e_word(-op["len"])
+            line = "G1 " + (self._e_word(-op["len"]) or "")
             if op.get("f") is not None:
                 line += " F" + fmt(op["f"] / U.unit, 3)
             return [line]
@@ -211,7 +222,7 @@ class Renderer(object):
             self.file_retracted = False
             if self.file_retract_len is None:
                 return [self._join(["G11"] + ([op["params"]] if op.get("params") else []))]
-            line = "G1 " + self._e_word(self.file_retract_len)
+            line = "G1 " + (self._e_word(self.file_retract_len) or "")
             if op.get("f") is not None:
                 line += " F" + fmt(op["f"] / U.unit, 3)
             return [line]
@@ -597,7 +608,9 @@ class PrintWorld(Renderer):
                 if extra and not retracts:
                     self.fail("C06", "enter_extra", "episode opened by %r (which does not retract): besides the "
                               "enter script %r the printer received %r" % (cmd, enter_here, extra))
-            elif self.enter_lines and any(x in self.enter_lines for x in call.wire if x != cmd):
+            elif self.enter_lines and not closed and any(x in self.enter_lines for x in call.wire if x != cmd):
+                # (a closing step is judged by the exit-sequence clauses, where a deferred command of the program
+                # may legitimately read like a script line)
                 self.fail("C06", "enter_again", "enter script line emitted outside an episode start: %r"
                           % (call.wire,))
             if withheld and call.wire:
